@@ -64,6 +64,9 @@ func genPlan(t *rapid.T, tune func(t *rapid.T, p *Plan)) Plan {
 	case 1:
 		p.PadBytes = 1500 + vfhelp.PickN(t, "padbig", 3000)
 	}
+	if vfhelp.Pick(t, "aux", 1) == 1 {
+		p.AuxPct = 5 + vfhelp.PickN(t, "auxpct", 20)
+	}
 	if vfhelp.Pick(t, "maxinmem", 2) == 0 {
 		// a handful of commands fit: the rate limiter engages as soon as a follower lags
 		p.MaxInMemBytes = uint64(2+vfhelp.PickN(t, "maxinmemk", 8)) * uint64(p.PadBytes+200)
@@ -212,7 +215,7 @@ var famE6C11 = set("call-after-close", "exclusive-calls-overlap", "update-index-
 	"lookup-overlaps-close", "savesnapshot-overlaps-update", "savesnapshot-overlaps-recoverfromsnapshot", "savesnapshot-overlaps-close",
 	"update-overlaps-lookup", "completed-request-never-applied", "savesnapshot-overlaps-close")
 var famE6C12 = set("completed-with-foreign-result", "dropped-request-applied", "completed-request-never-applied", "no-terminal-result", "two-results",
-	"committed-then-dropped", "committed-notified-never-applied")
+	"committed-then-dropped", "committed-notified-never-applied", "logquery-wrong-range", "logquery-undecodable-entry", "logquery-returned-uncommitted-entry")
 
 var famE6C02 = set("replicas-applied-different-entries", "update-index-not-increasing", "write-applied-twice", "command-payload-altered",
 	"replica-state-differs-at-same-index", "ondisk-update-at-or-below-open-index", "snapshot-content-not-at-snapshot-index", "installed-snapshot-content-not-at-snapshot-index")
